@@ -285,13 +285,14 @@ public class MasaReal {
 
   static double unit(String p) { return p.equals("ld") ? Math.pow(2, -64) : Math.pow(2, -53); }
   // |got - exp.val| <= 2^k * u_p * exp.mag
-  // the underflow floor: below the smallest normal number of the scalar type (2^-1022, 2^-16382) the relative error model of
-  // floating-point arithmetic does not hold -- a term of size 1e-400 IS 0 in double, correctly -- so an absolute error of
-  // 2^k smallest normal numbers is always within the tolerance
+  // the underflow floor: below the smallest normal DOUBLE (2^-1022) the relative error model does not hold in double -- a term
+  // of size 1e-400 IS 0 there, correctly -- and in either precision the running magnitude of this oracle (a Java double)
+  // cannot be carried: a long double result of size 1e-1547 has no representable scale.  An absolute error of 2^k smallest
+  // normal doubles is therefore always within the tolerance, for both scalar types (for long double this leaves results
+  // below 1e-306 practically unjudged: a limit of the oracle, DESIGN.md section 12).
   static final BigDecimal MIN_D = new BigDecimal(Double.MIN_NORMAL);
-  static final BigDecimal MIN_LD = BigDecimal.ONE.divide(new BigDecimal(BigInteger.ONE.shiftLeft(16382)), WC);
   static BigDecimal tolBD(double tol, int k, String p) {
-    BigDecimal fl = (p.equals("ld") ? MIN_LD : MIN_D).multiply(new BigDecimal(BigInteger.ONE.shiftLeft(Math.max(k, 0))), WC);
+    BigDecimal fl = MIN_D.multiply(new BigDecimal(BigInteger.ONE.shiftLeft(Math.max(k, 0))), WC);
     BigDecimal t = new BigDecimal(tol);
     return t.compareTo(fl) < 0 ? fl : t;
   }
